@@ -58,6 +58,25 @@ def run(chk):
     n = purity(chk, c, 'C04-E', ['validation.Validator.validate', 'core.Element.validate'], 'validate()')
     chk.floor('functions reachable from validate()', n, 25)
 
+    # ---- S: what the validator counts are the real children only
+    chk.rule('C04-S', 'nothing the validator reaches consults the shadow (traversal) index except the lazy-creation code: children '
+                      'that exist only because somebody navigated to them must not count as present')
+    from . import c10
+    reach_v = cg.reachable_cs(['validation.Validator.validate'])
+    ns = 0
+    for fq in sorted(reach_v):
+        fi = ix.functions[fq]
+        for n_ in own_nodes(fi.node):
+            if isinstance(n_, ast.Attribute) and n_.attr in ('traversal_indexes', 'traversal_list'):
+                ns += 1
+                table = c10.SHADOW_READERS if n_.attr == 'traversal_indexes' else c10.TRAVERSAL_LIST_USERS
+                ok = fq in table
+                chk.ob('C04-S', '%s reads %s' % (fq, n_.attr), ok,
+                       '' if ok else 'validate() reaches a function that looks at shadow children: after a mere read below a missing '
+                       'required child the validator sees it as present', '%s:%d' % (fi.module.relpath, n_.lineno),
+                       key='C04-S|%s|%s' % (fq, n_.attr))
+    chk.count('shadow-index reads reachable from validate()', ns)
+
     # ---- V
     isv = vv.nested.get('_is_valid')
     if isv is None:
